@@ -96,19 +96,44 @@ func (s *verifPodState) indexed() bool {
 	return vp.And3(s.exists && s.ip != "", vp.And(s.phase != 2, !s.terminating), s.ready)
 }
 
-func VerifC15PodIndex() {
+func VerifC15PodIndex() { verifPodHistory(3+vp.Tier(), false) }
+
+// endpoint-before-pod: histories are one step shorter, endpoints wait (and stop waiting) before the pods show up
+func VerifC15EndpointBeforePod() { verifPodHistory(2+vp.Tier(), true) }
+
+func verifPodHistory(steps int, withEndpoints bool) {
 	store := &verifPods{cur: map[string]*v1.Pod{}}
 	var requeued []types.NamespacedName
 	pc := newPodCache(&Controller{}, store, func(k types.NamespacedName) { requeued = append(requeued, k) })
 	names := []string{"p0", "p1"}
 	states := []*verifPodState{{}, {}}
 	delivered := []*v1.Pod{nil, nil} // last object the handler saw (nil: handler believes the pod does not exist)
-	// an endpoint that arrived before its pod and waits for IP verifIPs[0]
-	epKey := types.NamespacedName{Namespace: "ns", Name: "slice"}
-	waiting := false
-	if vp.Choice("endpointWaits", 2) == 1 {
-		pc.queueEndpointEventOnPodArrival(epKey, verifIPs[0])
-		waiting = true
+	// endpoints (slices) that arrived before their pod and wait for IP verifIPs[0]; some stop waiting again
+	// (the slice dropped the address or was deleted) before the pod shows up
+	epA, epB := types.NamespacedName{Namespace: "ns", Name: "slice-a"}, types.NamespacedName{Namespace: "ns", Name: "slice-b"}
+	waiting := map[types.NamespacedName]bool{}
+	scenario := 0
+	if withEndpoints {
+		scenario = 1 + vp.Choice("endpointsWaiting", 4)
+	}
+	switch scenario {
+	case 1:
+		pc.queueEndpointEventOnPodArrival(epA, verifIPs[0])
+		waiting[epA] = true
+	case 2:
+		pc.queueEndpointEventOnPodArrival(epA, verifIPs[0])
+		pc.queueEndpointEventOnPodArrival(epB, verifIPs[0])
+		waiting[epA], waiting[epB] = true, true
+	case 3:
+		pc.queueEndpointEventOnPodArrival(epA, verifIPs[0])
+		pc.queueEndpointEventOnPodArrival(epB, verifIPs[0])
+		pc.endpointDeleted(epA, verifIPs[0])
+		waiting[epB] = true
+	case 4:
+		pc.queueEndpointEventOnPodArrival(epA, verifIPs[0])
+		pc.queueEndpointEventOnPodArrival(epB, verifIPs[0])
+		pc.endpointDeleted(epB, verifIPs[0])
+		pc.endpointDeleted(epA, verifIPs[0])
 	}
 	deliver := func(i int) {
 		cur := store.cur[names[i]]
@@ -123,11 +148,24 @@ func VerifC15PodIndex() {
 			_ = pc.onEvent(nil, old, model.EventDelete)
 		}
 		delivered[i] = cur
-		if waiting && cur != nil && states[i].ip == verifIPs[0] && len(pc.getPodsByIP(verifIPs[0])) > 0 {
-			vp.Assert(len(requeued) > 0, "endpoint-waiting-for-a-pod-is-requeued-when-the-pod-is-indexed")
+		if cur != nil && states[i].ip == verifIPs[0] && len(pc.getPodsByIP(verifIPs[0])) > 0 {
+			// the pod is indexed: every endpoint still waiting for its IP has been re-queued, nobody else has
+			for _, ep := range []types.NamespacedName{epA, epB} {
+				n := 0
+				for _, r := range requeued {
+					if r == ep {
+						n++
+					}
+				}
+				if waiting[ep] {
+					vp.Assert(n == 1, "endpoint-waiting-for-a-pod-is-requeued-once-when-the-pod-is-indexed")
+				} else {
+					vp.Assert(n == 0, "endpoint-that-stopped-waiting-is-not-requeued")
+				}
+			}
+			vp.Assert(len(pc.needResync) == 0, "nothing-keeps-waiting-for-an-indexed-ip")
 		}
 	}
-	steps := 3 + vp.Tier()
 	for t := 0; t < steps; t++ {
 		i := vp.Choice(vp.Name("step", t)+".pod", 2)
 		st := states[i]
